@@ -554,7 +554,7 @@ struct Client {
     static const uint32_t w_pre[2] = {1, 1};
     // single-threaded algebra cases (C15): guard-to-guard operations and marked null pointers are frequent
     static const uint32_t w_alg[OP_NKINDS] = {16, 14, 10, 16, 8, 6, 8, 8, 8, 6, 8, 8, 3, 3, 3, 3, 8};
-    const uint32_t* w = algebra ? w_alg : (vh::prop_is("C02") || vh::prop_is("C17")) ? w_c02 : w_c01;
+    const uint32_t* w = (algebra || vrt::param("copy_heavy", 0)) ? w_alg : (vh::prop_is("C02") || vh::prop_is("C17")) ? w_c02 : w_c01;
     int n = is_main_prefix ? 2 : MAXOPS; // fixed shape: absent operations are NOPs, so zeroing a choice removes one
     nops[p] = n;
     int depth = 0;
